@@ -22,6 +22,7 @@ fn main() {
         "c11" => checks::c11::main(&a),
         "c12" => checks::c12::main(&a),
         "c13" => checks::c13::main(&a),
+        "c14" => checks::c14::main(&a),
         "c20" => checks::c20::main(&a),
         other => report::machinery(&format!("unknown check {other}")),
     }
